@@ -44,7 +44,11 @@ claim("C18",
       "Static, all paths of sig0.go: Verify's success only from the verifier's verdict, inside the validity window read in RRSIG order, with the key's owner as signer; digest input order and the big-endian ARCOUNT-1 octets by bit provenance; Sign's RDLENGTH/ARCOUNT read-modify-write patches as 16-bit quantities after the 65535 test and its digest operands; the buffer contract (a buffer PackBuffer must reuse is sized from the uncompressed length); affine guard coverage of every variable-offset read in Verify; RSA size limits. Cryptographic tamper-evidence and success for every message are not decided.",
       STATIC_NOTE, "guarded-success on SSA; byte-access and bit provenance; affine guard normalisation; stated-belief rule")
 
+claim("C09",
+      "Static, all paths of Truncate/truncateLoop/popEdns0: TSIG opt-out before any effect, size floored before any use, popped OPT re-appended on every path and last, order-preserving OPT removal, TC = old TC or dropped-from-some-section with matching section/count pairs, sections only cut to prefixes with counts from truncateLoop of the same section, running offset threaded, later sections walked only below the budget. The numeric clauses (packed length <= max(size,512), first dropped record would not have fitted) are not decided.",
+      STATIC_NOTE, "SSA edge-dominance, must-pass, value-identity and phi-structure rules")
+
 _pending = "rules for this property are designed (DESIGN.md §4) but not implemented yet; not claimed until they run"
-for p in ["C02","C03","C05","C06","C07","C09","C12","C16"]:
+for p in ["C02","C03","C05","C06","C07","C12","C16"]:
     na(p, _pending)
 na("C19", "every clause is an equality between index arithmetic on a runtime string and its label sequence; no pairing/ownership/ordering/table structure to decide statically (DESIGN.md §8)")
